@@ -290,6 +290,30 @@ fn cases(tier: &str) -> (Vec<Case>, Vec<Item>) {
             }
         }
     }
+    // the window buffer exactly full (and one byte around it) when the stream is finished, with matches running to the
+    // last byte: the only place where the clamp of the unsafe match extension (`optimization`) and the slice bound of the
+    // safe one can differ. The window size is observed from the allocator (largest byte buffer of a tiny encode); all
+    // four builds must observe the same, otherwise their transcripts differ at these positions.
+    for o in &sub {
+        if o.dict > 65536 {
+            continue;
+        }
+        for c in [Cont::LzmaHdr, Cont::Lzma2] {
+            if !accepts(c, o) {
+                continue;
+            }
+            mc_core::alloc::begin();
+            let _ = mc_core::run::catch(|| encode(c, o, &[1, 2, 3]));
+            let b = mc_core::alloc::biggest_bytes_request().max(8192);
+            let d = o.dict as usize;
+            for delta in [-1i64, 0, 1] {
+                let total = (b as i64 + delta) as usize;
+                for sh in [vec![Seg::R(64), Seg::P(3, total - 64)], vec![Seg::Z(total)], vec![Seg::R(d), Seg::D(d, total - d)]] {
+                    v.push(Case::Enc { c, o: *o, input: sh, bias: 0 });
+                }
+            }
+        }
+    }
     // renormalisation: scalar vs SIMD paths of LZEncoder::normalize
     for back in [1i32, 5000, 70_000] {
         for sh in [vec![Seg::C(9000)], vec![Seg::X(12_000)], vec![Seg::C(80_000)], vec![Seg::C(3000), Seg::R(3000), Seg::D(2500, 3000)]] {
@@ -375,6 +399,9 @@ fn run_case(c: &Case, items: &[Item]) -> u64 {
         }
     }
 }
+
+#[global_allocator]
+static ALLOC: mc_core::alloc::VerifAlloc = mc_core::alloc::VerifAlloc;
 
 fn main() {
     let a: Vec<String> = std::env::args().collect();
